@@ -106,28 +106,65 @@ Section Names.
   Definition group_of (ds : list dtask) (name : list N) : list (nat * dtask) :=
     filter (fun e => eqbL (prelim (snd e)) name) (indexed ds).
 
+  Definition has_key (k : list N) (m : list (list N * nat)) : bool :=
+    existsb (fun e => eqbL (fst e) k) m.
+
   (* parse_collected_tasks_with_task_marker; [order] = iteration order of the set of
-     preliminary names (hash-seed dependent); None = ValueError *)
+     preliminary names (hash-seed dependent); None = ValueError: duplicated generated ids, or a
+     name - explicit or generated - that is already taken *)
   Fixpoint parse_names (ds : list dtask) (order : list (list N)) (acc : list (list N * nat))
     : option (list (list N * nat)) :=
     match order with
     | [] => Some acc
     | name :: r =>
+      let new := match group_of ds name with
+                 | [] => Some []
+                 | [(idx, _)] => Some [(name, idx)]
+                 | g => gen_ids g
+                 end in
+      match new with
+      | None => None
+      | Some ids =>
+        if existsb (fun e => has_key (fst e) acc) ids then None
+        else parse_names ds r (acc ++ ids)
+      end
+    end.
+
+  Fixpoint nodupL (l : list (list N)) : bool :=
+    match l with
+    | [] => true
+    | x :: r => negb (existsb (eqbL x) r) && nodupL r
+    end.
+
+  (* the tasks of one module: prefixed functions first (collect.py), then the decorated ones
+     (task.py, trylast); names only - ids are path::name.  None = collection fails: a ValueError
+     above, or two tasks with one id (_fail_tasks_with_duplicated_ids) *)
+  Definition module_tasks (prefixed : list (list N)) (ds : list dtask) (order : list (list N))
+    : option (list (list N)) :=
+    match parse_names ds order [] with
+    | Some m => let l := prefixed ++ map fst m in if nodupL l then Some l else None
+    | None => None
+    end.
+
+  (* ---- the behaviour before the repairs of F7 and F8 (kept for the regression witnesses) *)
+  Fixpoint parse_names_old (ds : list dtask) (order : list (list N)) (acc : list (list N * nat))
+    : option (list (list N * nat)) :=
+    match order with
+    | [] => Some acc
+    | name :: r =>
       match group_of ds name with
-      | [] => parse_names ds r acc
-      | [(idx, _)] => parse_names ds r (dict_set name idx acc)
+      | [] => parse_names_old ds r acc
+      | [(idx, _)] => parse_names_old ds r (dict_set name idx acc)
       | g => match gen_ids g with
-             | Some ids => parse_names ds r (dict_update acc ids)
+             | Some ids => parse_names_old ds r (dict_update acc ids)
              | None => None
              end
       end
     end.
 
-  (* the tasks of one module: prefixed functions first (collect.py), then the decorated ones
-     (task.py, trylast); names only - ids are path::name *)
-  Definition module_tasks (prefixed : list (list N)) (ds : list dtask) (order : list (list N))
+  Definition module_tasks_old (prefixed : list (list N)) (ds : list dtask) (order : list (list N))
     : option (list (list N)) :=
-    match parse_names ds order [] with
+    match parse_names_old ds order [] with
     | Some m => Some (prefixed ++ map fst m)
     | None => None
     end.
